@@ -26,7 +26,7 @@ NOTE = ["'refused' = any exception (the library uses ModelDefinitionError, Model
 PARTIAL = ["extra_validation (nonlinsolve) is not exercised"]
 
 KINDS_UI = ["K1", "K2", "K3", "K4", "K5", "K6"]
-KINDS_CAL = ["K7", "K8", "K9"]
+KINDS_CAL = ["K7", "K7b", "K8", "K9"]
 KINDS_EKF = ["K10", "K10b", "K11a", "K11b", "K11c", "K12", "K12b", "K12c", "K13", "K13b", "K14", "K15", "K16", "K17", "K18", "K19"]
 
 
@@ -43,13 +43,14 @@ class Spec:
         self.sensors = {k: dict(rd) for k, rd in d.sensors.items()}
         self.sensor_noise = {k: {r: float(v) for r, v in rd.items()} for k, rd in sensor.items()}
         self.reading_syms = reading_syms
+        self.calmap_omitted = False
         self.noise_dups = []     # (sensor key, reading name, value): a SECOND noise entry for that reading, keyed by the other key type
         self.dt = d.dt
 
     def vdef(self):
         return {
             "state": self.state, "control": self.control, "calibration": self.calibration,
-            "updateKeys": list(self.update), "calKeys": list(self.calmap),
+            "updateKeys": list(self.update), "calKeys": [] if self.calmap_omitted else list(self.calmap),
             "noise": [["sym" if k == "sym" else "other", n, core.frac_str(__import__("fractions").Fraction(v))] for k, n, v in self.noise],
             "sensors": [{"key": k, "readings": [[r, sorted(s.name for s in sympy.sympify(e).free_symbols)] for r, e in rd.items()]}
                         for k, rd in self.sensors.items()],
@@ -58,7 +59,7 @@ class Spec:
 
     def describe(self):
         return {"state": self.state, "control": self.control, "calibration": self.calibration,
-                "update": {k: str(v) for k, v in self.update.items()}, "calibration_map": list(self.calmap),
+                "update": {k: str(v) for k, v in self.update.items()}, "calibration_map": None if self.calmap_omitted else list(self.calmap),
                 "process_noise": [(k, n, v) for k, n, v in self.noise],
                 "sensors": {k: {r: str(e) for r, e in rd.items()} for k, rd in self.sensors.items()},
                 "sensor_noise": {k: {r: v for r, v in rd.items()} for k, rd in self.sensor_noise.items()},
@@ -88,7 +89,7 @@ class Spec:
         return dict(process_noise=noise,
                     sensor_models={k: {self.rk(r): e for r, e in rd.items()} for k, rd in self.sensors.items()},
                     sensor_noises=sn,
-                    calibration_map={Symbol(k): v for k, v in self.calmap.items()})
+                    calibration_map=None if self.calmap_omitted else {Symbol(k): v for k, v in self.calmap.items()})
 
 
 def fresh(rng, spec):
@@ -115,6 +116,11 @@ def inject(rng, spec, kind, pos=None):
             k = pick(sorted(s.update)); e = s.update.pop(k); s.update[fresh(rng, s)] = e
         elif kind == "K7":
             del s.calmap[pick(sorted(s.calmap))]
+        elif kind == "K7b":
+            # the calibration map is not given at all (None) although the model declares calibration symbols
+            if not s.calibration:
+                return None
+            s.calmap_omitted = True
         elif kind == "K8":
             s.calmap[fresh(rng, s)] = 1.0
         elif kind == "K9":
@@ -267,7 +273,7 @@ def run(ctx):
         cal = {s.name: 1.5 for s in d.calibration}
         base = Spec(d, process, sensor, cal, reading_syms=(i % 3 == 2))
         todo = [("valid", None, base, "all")]
-        for kinds, which in ((KINDS_UI, "ui"), (KINDS_CAL, "compile"), (KINDS_EKF, "ekf")):
+        for kinds, which in ((KINDS_UI, "ui"), (KINDS_CAL, "compile"), (KINDS_CAL, "ekf"), (KINDS_EKF, "ekf")):
             for kind in kinds:
                 poss = list(positions(base, kind)) if not ctx.quick else [None]
                 for pos in poss:
